@@ -1,9 +1,10 @@
 #!/bin/bash
 # development aid: is each stored seeded change detected by the check of its own property for OTHER random seeds too?
-# usage (inside a sandbox): tools/seed_robustness.sh "<seeds>"      prints one line per (change, seed): detected / MISSED
+# usage (inside a sandbox): tools/seed_robustness.sh "<seeds>" [<name regex>]   prints one line per (change, seed): detected / MISSED
 cd ${VERIF_ROOT:-/verif}
 for d in seeded/*/; do
   name=$(basename $d)
+  [ -n "$2" ] && ! echo "$name" | grep -Eq "$2" && continue
   prop=$(python3 -c "import json;print(json.load(open('$d/meta.json'))['caught_by'][0])")
   for s in ${1:-2 3}; do
     git -C ${REPO_ROOT:-/repo} apply ${VERIF_ROOT:-/verif}/$d/patch.diff 2>/dev/null || { echo "$name seed=$s: patch does not apply"; continue; }
